@@ -138,6 +138,81 @@ func TestVerifReplaySubKeyCounter(t *testing.T) {
 	}
 }
 
+// Alignment with many sub-keys: every order in which 4 and 5 distinct sub-keys (the empty one
+// included) can first appear, each followed by a second sample of every sub-key for two rows; the
+// sorted sub-key list, every cell and every row total must equal the fold (the index map and the
+// value columns have to stay aligned when a new sub-key is inserted before existing ones, with
+// and without spare capacity in the sub-key slice).
+func TestVerifReplaySubKeyAlignment(t *testing.T) {
+	pool := []string{"", "a", "b", "c", "d"}
+	var perms [][]string
+	var rec func(cur []string, used []bool, n int)
+	rec = func(cur []string, used []bool, n int) {
+		if len(cur) == n {
+			perms = append(perms, append([]string(nil), cur...))
+			return
+		}
+		for i := 0; i < n; i++ {
+			if !used[i] {
+				used[i] = true
+				rec(append(cur, pool[i]), used, n)
+				used[i] = false
+			}
+		}
+	}
+	rec(nil, make([]bool, 4), 4)
+	rec(nil, make([]bool, 5), 5)
+	for _, perm := range perms {
+		c := NewSubKeyCounter()
+		type kk struct{ k, s string }
+		want := map[kk]int64{}
+		rows := map[string]int64{}
+		step := func(k, sk string, n int64) bool {
+			c.SampleValue(k, sk, n)
+			want[kk{k, sk}] += n
+			rows[k] += n
+			subs := map[string]bool{}
+			for key := range want {
+				subs[key.s] = true
+			}
+			var subList []string
+			for s := range subs {
+				subList = append(subList, s)
+			}
+			sort.Strings(subList)
+			if strings.Join(c.SubKeys(), "|") != strings.Join(subList, "|") {
+				fmt.Printf("REPRODUCED: sub-keys first seen in order %q: after (%q,%q) the counter lists %q, the fold %q\n", perm, k, sk, c.SubKeys(), subList)
+				return false
+			}
+			for _, it := range c.Items() {
+				if it.Item.Count() != rows[it.Name] || len(it.Item.Items()) != len(subList) {
+					fmt.Printf("REPRODUCED: sub-keys first seen in order %q: row %q total %d / %d columns, the fold gives %d / %d\n", perm, it.Name, it.Item.Count(), len(it.Item.Items()), rows[it.Name], len(subList))
+					return false
+				}
+				for i, sk2 := range subList {
+					if it.Item.Items()[i] != want[kk{it.Name, sk2}] {
+						fmt.Printf("REPRODUCED: sub-keys first seen in order %q: cell (%q,%q) is %d, the fold gives %d\n", perm, it.Name, sk2, it.Item.Items()[i], want[kk{it.Name, sk2}])
+						return false
+					}
+				}
+			}
+			return true
+		}
+		for i, sk := range perm {
+			if !step("r1", sk, int64(i+1)) || !step("r2", sk, int64(10*(i+1))) {
+				t.Fail()
+				return
+			}
+		}
+		for i, sk := range perm {
+			if !step("r1", sk, int64(100*(i+1))) || !step("r3", sk, 7) {
+				t.Fail()
+				return
+			}
+		}
+	}
+}
+
 func TestVerifReplayTable(t *testing.T) {
 	alphabet := []string{"x r", "y r", "x q 2", "y q -3", "x r z", "x", "z q 0", " r -2"}
 	for _, h := range vrHistories(alphabet, 4) {
